@@ -11,6 +11,7 @@ import BioSeq.Misc
 import BioSeq.Standard
 import BioSeq.Serde
 import BioSeq.Macros
+import BioSeq.Derive
 import BioSeq.Generated.Tables
 
 open BioSeq
@@ -670,6 +671,54 @@ def codonTableQuery (x : Ctx) (amino : Codec) : Q String := do
         | .ok c => s!"codon:{content x.c c}" | .error e => terrStr e]
   pure (if outs.isEmpty then "-" else ";".intercalate outs)
 
+/-- literal token of a declaration: kind letter + decimal value; non-integer kinds have no value -/
+def litTok (t : String) : Option (Option Nat) :=
+  match t.toList with
+  | k :: rest =>
+    let v := (String.ofList rest).toNat?
+    if k = 'd' ∨ k = 'b' ∨ k = 'x' ∨ k = 'u' ∨ k = 'y' then v.map some
+    else if k = 'f' ∨ k = 't' ∨ k = 'n' then some none
+    else none
+  | [] => none
+
+def parseDecl : Q Gen.EnumDecl := do
+  let bitsTok ← qlift next
+  let bits ← if bitsTok = "-" then pure none else match bitsTok.toNat? with
+    | some b => pure (some b)
+    | none => throw (.badOp "bits")
+  let n ← qlift num
+  let mut vs : List Gen.VariantDecl := []
+  for _ in [0:n] do
+    let ident ← qlift next
+    let discTok ← qlift next
+    let disc ← if discTok = "-" then pure none else match litTok discTok with
+      | some d => pure d
+      | none => throw (.badOp "lit")
+    let dispTok ← qlift next
+    let display ← if dispTok = "-" then pure none else match dispTok.toNat? with
+      | some c => pure (some c)
+      | none => throw (.badOp "display")
+    let nalts ← qlift num
+    let mut alts : List Nat := []
+    for _ in [0:nalts] do
+      let a ← qlift next
+      match litTok a with
+      | some (some v) => alts := alts ++ [v]
+      | _ => throw (.badOp "lit")
+    vs := vs ++ [{ ident := ident, disc := disc, display := display, alts := alts }]
+  pure { name := "E", bits := bits, variants := vs }
+
+def deriveQuery : Q String := do
+  let d ← parseDecl
+  match Derive.derive "E" d with
+  | .error .panic => pure "derivepanic"
+  | .error _ => pure "deriveerr"
+  | .ok c =>
+    let tab (f : Nat → Option Nat) : String :=
+      String.join ((List.range 256).map fun b => match f b with | some s => hex2 s | none => "--")
+    let chars := ",".intercalate (c.items.map fun s => s!"{hex2 s}:{hex2 (c.toChar s)}")
+    pure s!"w={c.width} items={String.join (c.items.map hex2)} tfb={tab c.tryFromBits} tfa={tab c.tryFromAscii} chars={chars}"
+
 /-- codec-specific queries (harness/src/misc.rs `special`) -/
 def special (x : Ctx) (q : String) : Option (Q String) :=
   let p := x.p
@@ -747,6 +796,7 @@ def special (x : Ctx) (q : String) : Option (Q String) :=
       let d ← qres (Kmer.display p x.c cps.length st v)
       pure s!"{v} {utf8Hex d} {hashStr (Kmer.hashEvents x.c cps.length st v)}"
     | .error _ => pure "macroerr"
+  | _, "derive" => some deriveQuery
   | "dna", "codontable" => some (codonTableQuery x (Gen.amino p))
   | "iupac", "codontable" => some (codonTableQuery x (Gen.amino p))
   | _, _ => none
